@@ -663,6 +663,12 @@ def check_C19(c):
              Alphabet={S(x) for x in ("T", "UT", "Transpose", "SafeT", "RollAxis")}, BothTargets=False)
     cases = c.tlc("MC_trans", "hist-trans", k, ["TypeOK", "Emit"])
     c.replay("hist-trans", cases, dtypes="float64,int8", pals="ident", rotate=1 if q else 0)
+    # a shallow clone handed back to the pools (followed by foreign pool users) between the transposition steps: the
+    # operand's pending transposition, its saved access pattern and its axes must survive (they belong to the operand)
+    k = dict(MinRank=2, MaxRank=3, MaxDim=3, MaxDimHi=2 if q else 3, HiRank=3, Ctors={S("C")}, MaxLen=3 if q else 4, WithSlice=False, PermPalette=True,
+             Alphabet={S(x) for x in ("T", "UT", "Transpose", "ShallowReturn")}, BothTargets=False)
+    cases = c.tlc("MC_trans", "hist-shallow", k, ["TypeOK", "Emit"])
+    c.replay("hist-shallow", cases, dtypes="float64,int8", pals="ident")
     k = dict(MinRank=1, MaxRank=3, MaxDim=3, MaxDimHi=2, HiRank=3, LayA={S("C"), S("T"), S("Col")}, Kinds={S("Reduce"), S("Arg")})
     cases = c.tlc("MC_reduce", "hist-reduce", k, ["TypeOK", "Emit"])
     c.replay("hist-reduce", cases, dtypes="float64", pals="ident", extra=["-ops", "all"])
